@@ -224,11 +224,25 @@ func (fx *Fx) stdlibCall(st *State, fn *types.Func, recvExpr ast.Expr, call *ast
 		}
 		return []Val{{T: types.Typ[types.Int], S: SInt, X: r}}
 	case "strconv.FormatUint":
+		// fmtU (and parseU_ok / parseU_val below) are the decimal functions the contracts talk about; any other base is a
+		// different, unrelated function
+		if b := constInt(fx, call.Args[1]); b != 10 {
+			f := fx.d.declareFun(fmt.Sprintf("fmtU_b%d", b), []string{SInt}, SStr)
+			return []Val{{T: types.Typ[types.String], S: SStr, X: app(f, args[0].X)}}
+		}
 		return []Val{{T: types.Typ[types.String], S: SStr, X: app("fmtU", args[0].X)}}
 	case "strconv.ParseUint":
 		s := args[0]
 		v := fx.d.freshConst("parseuint", SInt)
 		e := fx.d.freshConst("parseuint_err", SRef)
+		if b, bits := constInt(fx, call.Args[1]), constInt(fx, call.Args[2]); b != 10 || bits != 64 {
+			okF := fx.d.declareFun(fmt.Sprintf("parseU_ok_b%d_%d", b, bits), []string{SStr}, SBool)
+			valF := fx.d.declareFun(fmt.Sprintf("parseU_val_b%d_%d", b, bits), []string{SStr}, SInt)
+			st.assume(app("=", app("=", e, "nil"), app(okF, s.X)))
+			st.assume(implies(app(okF, s.X), app("=", v, app(valF, s.X))))
+			st.assume(and(app("<=", "0", v), app("<=", v, "18446744073709551615")))
+			return []Val{{T: types.Typ[types.Uint64], S: SInt, X: v}, {T: sig.Results().At(1).Type(), S: SRef, X: e}}
+		}
 		st.assume(app("=", app("=", e, "nil"), app("parseU_ok", s.X)))
 		st.assume(implies(app("parseU_ok", s.X), app("=", v, app("parseU_val", s.X))))
 		st.assume(and(app("<=", "0", v), app("<=", v, "18446744073709551615")))
@@ -237,9 +251,20 @@ func (fx *Fx) stdlibCall(st *State, fn *types.Func, recvExpr ast.Expr, call *ast
 		s := args[0]
 		v := fx.d.freshConst("parseint", SInt)
 		e := fx.d.freshConst("parseint_err", SRef)
-		st.assume(app("=", app("=", e, "nil"), app("parseI_ok", s.X)))
-		st.assume(implies(app("parseI_ok", s.X), app("=", v, app("parseI_val", s.X))))
-		st.assume(implies(app("parseI_ok", s.X), app(">", app("slen", s.X), "0"))) // the empty string is a syntax error
+		// parseI_ok / parseI_val (parseIok, parseIval in contracts) are the base-10, 64-bit reading; any other base or
+		// size is a different, unrelated function
+		okF, valF := "parseI_ok", "parseI_val"
+		if b, bits := constInt(fx, call.Args[1]), constInt(fx, call.Args[2]); b != 10 || bits != 64 {
+			okF, valF = fmt.Sprintf("parseI_ok_b%d_%d", b, bits), fmt.Sprintf("parseI_val_b%d_%d", b, bits)
+		}
+		if okF != "parseI_ok" {
+			okF = fx.d.declareFun(okF, []string{SStr}, SBool)
+			valF = fx.d.declareFun(valF, []string{SStr}, SInt)
+		}
+		st.assume(app("=", app("=", e, "nil"), app(okF, s.X)))
+		st.assume(implies(app(okF, s.X), app("=", v, app(valF, s.X))))
+		st.assume(implies(app(okF, s.X), app(">", app("slen", s.X), "0"))) // the empty string is a syntax error
+		st.assume(implies(and(app(okF, s.X), not(app("=", app("sat", s.X, "0"), "45"))), app(">=", v, "0"))) // negative only with a leading '-'
 		st.assume(and(app("<=", minInt, v), app("<=", v, maxInt)))
 		return []Val{{T: types.Typ[types.Int64], S: SInt, X: v}, {T: sig.Results().At(1).Type(), S: SRef, X: e}}
 	case "errors.New", "fmt.Errorf":
@@ -290,11 +315,13 @@ func (fx *Fx) stdlibCall(st *State, fn *types.Func, recvExpr ast.Expr, call *ast
 		r := fx.d.freshConst("now", SInt)
 		st.assume(not(app("=", r, "0")))
 		fx.assumed["time.Time is an integer instant; time.Now never returns the zero instant"] = true
+		st.ghost["lastnow"] = Val{T: sig.Results().At(0).Type(), S: SInt, X: r} // timenow() in contracts
 		return []Val{{T: sig.Results().At(0).Type(), S: SInt, X: r}}
 	case "time.Since":
 		r := fx.d.freshConst("since", SInt)
 		st.assume(app("<=", "0", r))
 		fx.assumed["time.Since is non-negative"] = true
+		st.ghost["lastsince"] = Val{T: sig.Results().At(0).Type(), S: SInt, X: r} // timesince() in contracts
 		return []Val{{T: sig.Results().At(0).Type(), S: SInt, X: r}}
 	case "math/rand.New", "math/rand.NewSource":
 		return []Val{{T: sig.Results().At(0).Type(), S: SRef, X: fx.alloc(st, "rng")}}
@@ -314,6 +341,16 @@ func isNonDigitPredicate(lit *ast.FuncLit) bool {
 }
 
 // indexByte: strings.IndexByte as an uninterpreted function whose defining facts are instantiated per use.
+// constInt: the value of a constant integer expression, -1 if it is not constant
+func constInt(fx *Fx, e ast.Expr) int64 {
+	if tv, ok := fx.pkg.info.Types[e]; ok && tv.Value != nil {
+		if v, ok := constant.Int64Val(tv.Value); ok {
+			return v
+		}
+	}
+	return -1
+}
+
 func isASCII(s string) bool {
 	for i := 0; i < len(s); i++ {
 		if s[i] >= 0x80 {
